@@ -130,6 +130,23 @@ PROPS = {
         "level_text": "Lean theorem C20: for every finite sequence of read outcomes over the modelled error vocabulary and every cancellation point, the receiver model processes exactly the frames before its end, once each and in order, reports exactly the unknown failures and processing errors, retries transient ones silently and ends at the first broken-socket outcome or at cancellation (induction over the sequence, no length bound). The model is tied to receiver.go by running the real ReceivePackets on scripted readers/processors.",
         "level_note": "Trusted: Lean kernel; the vocabulary of 15 error values stands for all errors (an error outside it is classified by the same two Go functions but is not modelled); timing (5 ms sleep) not modelled.",
     },
+    "C19": {
+        "modules": ["SxVerif.Props.C19"],
+        "components": ["live"],
+        "trusted_base": [
+            "modelled, not verified: Go channel/select/timer semantics as the small-step process of Model/Live.lean (a goroutine parked in a select is woken by the first case that fires; both-ready selects choose arbitrarily; receive on a nil channel blocks; time.After(0) is ready at once); arming the rescan timer and polling the select is one atomic step",
+            "the delegate as `passes : Nat -> Option (List Request)` plus `drop` events after a cancel (its own ctx-guarded sends); the consumer of `out` as the scheduler (a slow consumer = the goroutine is not scheduled)",
+            "shape of liveRequestGenerator / readRequest / writeRequest and the arp --live wiring regenerated by sxfacts (Generated/Live.lean; local identifiers normalised by role; unknown shapes are translator problems that break Props/C19.translator_clean)",
+        ],
+        "assumptions": [
+            "rescan > 0 for the bounded-termination theorem (the arp wiring installs the live generator only when --live > 0: C19_wiring); with rescan = 0 a cancelled generator may keep racing its always-ready timer",
+            "liveness (C19_passes_unbounded) is under fairness: the goroutine is scheduled again and again (which includes the consumer taking requests) and time keeps flowing",
+            "a delegate that fails returns the nil channel (all generators of sx do: `return nil, err`)",
+            "the harness observes lower bounds on real time only (gap >= rescan); the only upper bound is 'closed within 1 s of the cancel'",
+        ],
+        "level_text": "Lean theorems over a small-step model of liveRequestGenerator with a logical clock, for every delegate `passes`, every rescan interval and every schedule (timing, cancel point, consumer speed, outcome of every racing select): C19_passes_whole_in_order (uncancelled output = pass 0 ++ ... ++ pass k-1 ++ prefix of pass k, the rest still held), C19_nothing_invented (after a cancel only a sublist of what was held trickles out, delivered output stays a prefix), C19_rescan_interval (call k+1 >= end of pass k + rescan), C19_passes_unbounded (every fair uncancelled infinite schedule requests more than any number of passes), C19_cancel_closes / C19_closed_is_final (rescan > 0: closed within 2*max(rest of pass, next pass)+3 own steps after the cancel, at most one more pass, and final), C19_failed_pass_parks (a failing call k: no further call, the goroutine blocked on the nil channel with no enabled step until the cancel, then closed in two steps), C19_arp_live (in the arp wiring every pass starts and is a C01 pass with fresh draws), C19_shape / C19_wiring (decided over the shape regenerated from request.go and arp.go). Tied to the code by running the real scan.NewLiveRequestGenerator over a scripted delegate (passes of length 0..200, slow passes, a failing call at any position, cancel after every n-th request / while blocked on the consumer / inside the rescan wait / after a failed call; rescan 20-40 ms) and replaying the observed call/close times through the model.",
+        "level_note": "Trusted: Lean kernel; the channel/select/timer semantics of the model (validated differentially, not proved); sxfacts for the loop shape and wiring. Observation recorded, not raised as a violation: after a pass that fails to start the generator parks until cancellation — no crash, no busy loop, but also no further pass (the arp wiring cannot produce a failing later pass: C19_arp_live).",
+    },
     "C13": {
         "modules": ["SxVerif.Props.C13"],
         "components": ["gen"],
